@@ -1,6 +1,7 @@
 import LlgoVerif.Lemmas.ChanThreads
 /-! Liveness-side invariant for C10: a thread parked in one of the two *buffered* wait loops of
-    `ChanSend` / `ChanRecv` has its wait condition still true, unless a `Broadcast` on that channel is pending. -/
+    `ChanSend` / `ChanRecv` — or, in the `fixed` variant, in the second phase of an unbuffered receive — has its
+    wait condition still true, unless a `Broadcast` on that channel is pending. -/
 namespace LlgoVerif.Chan
 
 /-! ### channel-level facts about the critical sections -/
@@ -13,8 +14,24 @@ theorem body_cap (p : Point) (t : Tid) (ch : Chan) : (body p t ch).ch.cap = ch.c
   case recvLock c sl => unfold recvLoop; split <;> (try split) <;> (try split) <;> simp_all [Chan.pop]
   case recvWaitU c sl => unfold recvLoop; split <;> (try split) <;> (try split) <;> simp_all [Chan.pop]
   case recvWaitB c sl => unfold recvLoop; split <;> (try split) <;> (try split) <;> simp_all [Chan.pop]
-  case recv2Lock c b => unfold recv2Loop; split <;> simp_all
-  case recv2Wait c b => unfold recv2Loop; split <;> simp_all
+  case recv2Lock c b sq => unfold recv2Loop; split <;> (split <;> simp_all)
+  case recv2Wait c b sq => unfold recv2Loop; split <;> (split <;> simp_all)
+  case closeLock c => unfold closeBody; split <;> simp_all
+  case trySendLock c v => unfold trySendBody; split <;> (try split) <;> simp_all [Chan.push, Chan.handOff] <;> (split <;> simp_all)
+  case tryRecvLock c sl a => unfold tryRecvBody; split <;> (try split) <;> (try split) <;> simp_all [Chan.pop]
+  case prepLock c b => unfold prepBody; split <;> simp_all <;> (split <;> simp_all)
+  case endLock c b => unfold endBody; simp_all; split <;> simp_all
+
+theorem body_fixed (p : Point) (t : Tid) (ch : Chan) : (body p t ch).ch.fixed = ch.fixed := by
+  cases p <;> simp only [body]
+  case sendLock c v => unfold sendLoop; split <;> (try split) <;> (try split) <;> simp_all [Chan.push, Chan.handOff] <;> (split <;> simp_all)
+  case sendWaitU c v => unfold sendLoop; split <;> (try split) <;> (try split) <;> simp_all [Chan.push, Chan.handOff] <;> (split <;> simp_all)
+  case sendWaitB c v => unfold sendLoop; split <;> (try split) <;> (try split) <;> simp_all [Chan.push, Chan.handOff] <;> (split <;> simp_all)
+  case recvLock c sl => unfold recvLoop; split <;> (try split) <;> (try split) <;> simp_all [Chan.pop]
+  case recvWaitU c sl => unfold recvLoop; split <;> (try split) <;> (try split) <;> simp_all [Chan.pop]
+  case recvWaitB c sl => unfold recvLoop; split <;> (try split) <;> (try split) <;> simp_all [Chan.pop]
+  case recv2Lock c b sq => unfold recv2Loop; split <;> (split <;> simp_all)
+  case recv2Wait c b sq => unfold recv2Loop; split <;> (split <;> simp_all)
   case closeLock c => unfold closeBody; split <;> simp_all
   case trySendLock c v => unfold trySendBody; split <;> (try split) <;> simp_all [Chan.push, Chan.handOff] <;> (split <;> simp_all)
   case tryRecvLock c sl a => unfold tryRecvBody; split <;> (try split) <;> (try split) <;> simp_all [Chan.pop]
@@ -23,7 +40,8 @@ theorem body_cap (p : Point) (t : Tid) (ch : Chan) : (body p t ch).ch.cap = ch.c
 
 /-- a critical section that changes anything a `Cond.Wait` loop tests is followed by `Unlock; Broadcast` -/
 theorem body_change_broadcasts (p : Point) (t : Tid) (ch : Chan)
-    (h : (body p t ch).ch.len ≠ ch.len ∨ (body p t ch).ch.closed ≠ ch.closed ∨ (body p t ch).ch.getp ≠ ch.getp) :
+    (h : (body p t ch).ch.len ≠ ch.len ∨ (body p t ch).ch.closed ≠ ch.closed ∨ (body p t ch).ch.getp ≠ ch.getp ∨
+      (body p t ch).ch.recvseq ≠ ch.recvseq) :
     ∃ n, (body p t ch).out = .notify (.finish true n) := by
   cases p <;> simp only [body] at h ⊢
   case sendLock c v => unfold sendLoop at h ⊢; split <;> (try split) <;> (try split) <;> simp_all [Chan.push, Chan.handOff] <;> (split <;> simp_all)
@@ -32,24 +50,38 @@ theorem body_change_broadcasts (p : Point) (t : Tid) (ch : Chan)
   case recvLock c sl => unfold recvLoop at h ⊢; split <;> (try split) <;> (try split) <;> simp_all [Chan.pop]
   case recvWaitU c sl => unfold recvLoop at h ⊢; split <;> (try split) <;> (try split) <;> simp_all [Chan.pop]
   case recvWaitB c sl => unfold recvLoop at h ⊢; split <;> (try split) <;> (try split) <;> simp_all [Chan.pop]
-  case recv2Lock c b => unfold recv2Loop at h ⊢; split <;> simp_all
-  case recv2Wait c b => unfold recv2Loop at h ⊢; split <;> simp_all
+  case recv2Lock c b sq => unfold recv2Loop at h ⊢; split <;> (split <;> simp_all)
+  case recv2Wait c b sq => unfold recv2Loop at h ⊢; split <;> (split <;> simp_all)
   case closeLock c => unfold closeBody at h ⊢; split <;> simp_all
   case trySendLock c v => unfold trySendBody at h ⊢; split <;> (try split) <;> simp_all [Chan.push, Chan.handOff] <;> (split <;> simp_all)
   case tryRecvLock c sl a => unfold tryRecvBody at h ⊢; split <;> (try split) <;> (try split) <;> simp_all [Chan.pop]
   case prepLock c b => unfold prepBody at h ⊢; split <;> simp_all <;> (split at h <;> simp_all)
   case endLock c b => unfold endBody at h ⊢; simp_all; split at h <;> simp_all
 
-theorem body_quiet_len (p : Point) (t : Tid) (ch : Chan)
-    (h : ∀ n, (body p t ch).out ≠ .notify (.finish true n)) : (body p t ch).ch.len = ch.len := by
-  by_cases hl : (body p t ch).ch.len = ch.len
-  · exact hl
-  · obtain ⟨n, hn⟩ := body_change_broadcasts p t ch (Or.inl hl)
-    exact absurd hn (h n)
+/-- the fields the tracked wait loops test -/
+structure SameW (ch ch' : Chan) : Prop where
+  len : ch'.len = ch.len
+  cap : ch'.cap = ch.cap
+  seq : ch'.recvseq = ch.recvseq
+  closed : ch'.closed = ch.closed
+  fixed : ch'.fixed = ch.fixed
 
-/-- the two buffered wait loops -/
+theorem body_quiet (p : Point) (t : Tid) (ch : Chan)
+    (h : ∀ n, (body p t ch).out ≠ .notify (.finish true n)) : SameW ch (body p t ch).ch := by
+  have key : ∀ (P : Prop), (¬P → ∃ n, (body p t ch).out = .notify (.finish true n)) → P := by
+    intro P hP
+    by_cases hp : P
+    · exact hp
+    · obtain ⟨n, hn⟩ := hP hp
+      exact absurd hn (h n)
+  refine ⟨?_, body_cap p t ch, ?_, ?_, body_fixed p t ch⟩
+  · exact key _ (fun hn => body_change_broadcasts p t ch (Or.inl hn))
+  · exact key _ (fun hn => body_change_broadcasts p t ch (Or.inr (Or.inr (Or.inr hn))))
+  · exact key _ (fun hn => body_change_broadcasts p t ch (Or.inr (Or.inl hn)))
+
+/-- the wait loops the invariant tracks: the two buffered loops and the second phase of an unbuffered receive -/
 def Point.isWaitB : Point → Bool
-  | .sendWaitB .. | .recvWaitB .. => true
+  | .sendWaitB .. | .recvWaitB .. | .recv2Wait .. => true
   | _ => false
 
 /-- the condition under which the code went to sleep at wait point `p` (buffered loops only) -/
@@ -57,13 +89,15 @@ def waitCond (p : Point) (ch : Chan) : Prop :=
   match p with
   | .sendWaitB .. => ch.len = ch.cap ∧ ch.cap ≠ 0
   | .recvWaitB .. => ch.len = 0 ∧ ch.cap ≠ 0
+  | .recv2Wait _ _ seq => ch.fixed = true → ch.recvseq = seq ∧ ch.closed = false
   | _ => True
 
 theorem waitCond_of_not_B (p : Point) (ch : Chan) (h : p.isWaitB = false) : waitCond p ch := by
   cases p <;> simp_all [Point.isWaitB, waitCond]
 
-theorem waitCond_congr (p : Point) (ch ch' : Chan) (h1 : ch'.len = ch.len) (h2 : ch'.cap = ch.cap)
+theorem waitCond_congr (p : Point) (ch ch' : Chan) (hs : SameW ch ch')
     (h : waitCond p ch) : waitCond p ch' := by
+  obtain ⟨h1, h2, h3, h4, h5⟩ := hs
   cases p <;> simp_all [waitCond]
 
 theorem isWait_of_isWaitB (p : Point) (h : p.isWaitB = true) : p.isWait = true := by
@@ -79,8 +113,8 @@ theorem body_wait (p q : Point) (t : Tid) (ch : Chan) (h : (body p t ch).out = .
   case recvLock c sl => unfold recvLoop at h; split at h <;> (try split at h) <;> (try split at h) <;> (try simp_all) <;> (try split at h) <;> (try simp_all) <;> (try (subst h; simp_all [waitCond, Point.chan, Point.isWaitB]))
   case recvWaitU c sl => unfold recvLoop at h; split at h <;> (try split at h) <;> (try split at h) <;> (try simp_all) <;> (try split at h) <;> (try simp_all) <;> (try (subst h; simp_all [waitCond, Point.chan, Point.isWaitB]))
   case recvWaitB c sl => unfold recvLoop at h; split at h <;> (try split at h) <;> (try split at h) <;> (try simp_all) <;> (try split at h) <;> (try simp_all) <;> (try (subst h; simp_all [waitCond, Point.chan, Point.isWaitB]))
-  case recv2Lock c b => unfold recv2Loop at h; split at h <;> (try split at h) <;> (try split at h) <;> (try simp_all) <;> (try split at h) <;> (try simp_all) <;> (try (subst h; simp_all [waitCond, Point.chan, Point.isWaitB]))
-  case recv2Wait c b => unfold recv2Loop at h; split at h <;> (try split at h) <;> (try split at h) <;> (try simp_all) <;> (try split at h) <;> (try simp_all) <;> (try (subst h; simp_all [waitCond, Point.chan, Point.isWaitB]))
+  case recv2Lock c b sq => unfold recv2Loop at h; split at h <;> (try split at h) <;> (try split at h) <;> (try simp_all) <;> (try split at h) <;> (try simp_all) <;> (try (subst h; simp_all [waitCond, Point.chan, Point.isWaitB]))
+  case recv2Wait c b sq => unfold recv2Loop at h; split at h <;> (try split at h) <;> (try split at h) <;> (try simp_all) <;> (try split at h) <;> (try simp_all) <;> (try (subst h; simp_all [waitCond, Point.chan, Point.isWaitB]))
   case closeLock c => unfold closeBody at h; split at h <;> (try split at h) <;> (try split at h) <;> (try simp_all) <;> (try split at h) <;> (try simp_all) <;> (try (subst h; simp_all [waitCond, Point.chan, Point.isWaitB]))
   case trySendLock c v => unfold trySendBody at h; split at h <;> (try split at h) <;> (try split at h) <;> (try simp_all) <;> (try split at h) <;> (try simp_all) <;> (try (subst h; simp_all [waitCond, Point.chan, Point.isWaitB]))
   case tryRecvLock c sl a => unfold tryRecvBody at h; split at h <;> (try split at h) <;> (try split at h) <;> (try simp_all) <;> (try split at h) <;> (try simp_all) <;> (try (subst h; simp_all [waitCond, Point.chan, Point.isWaitB]))
@@ -97,8 +131,8 @@ theorem body_notify_wait (p q : Point) (t : Tid) (ch : Chan) (h : (body p t ch).
   case recvLock c sl => unfold recvLoop at h; split at h <;> (try split at h) <;> (try split at h) <;> (try simp_all) <;> (try split at h) <;> (try simp_all) <;> (try (subst h; simp_all [waitCond, Point.chan, Point.isWaitB]))
   case recvWaitU c sl => unfold recvLoop at h; split at h <;> (try split at h) <;> (try split at h) <;> (try simp_all) <;> (try split at h) <;> (try simp_all) <;> (try (subst h; simp_all [waitCond, Point.chan, Point.isWaitB]))
   case recvWaitB c sl => unfold recvLoop at h; split at h <;> (try split at h) <;> (try split at h) <;> (try simp_all) <;> (try split at h) <;> (try simp_all) <;> (try (subst h; simp_all [waitCond, Point.chan, Point.isWaitB]))
-  case recv2Lock c b => unfold recv2Loop at h; split at h <;> (try split at h) <;> (try split at h) <;> (try simp_all) <;> (try split at h) <;> (try simp_all) <;> (try (subst h; simp_all [waitCond, Point.chan, Point.isWaitB]))
-  case recv2Wait c b => unfold recv2Loop at h; split at h <;> (try split at h) <;> (try split at h) <;> (try simp_all) <;> (try split at h) <;> (try simp_all) <;> (try (subst h; simp_all [waitCond, Point.chan, Point.isWaitB]))
+  case recv2Lock c b sq => unfold recv2Loop at h; split at h <;> (try split at h) <;> (try split at h) <;> (try simp_all) <;> (try split at h) <;> (try simp_all) <;> (try (subst h; simp_all [waitCond, Point.chan, Point.isWaitB]))
+  case recv2Wait c b sq => unfold recv2Loop at h; split at h <;> (try split at h) <;> (try split at h) <;> (try simp_all) <;> (try split at h) <;> (try simp_all) <;> (try (subst h; simp_all [waitCond, Point.chan, Point.isWaitB]))
   case closeLock c => unfold closeBody at h; split at h <;> (try split at h) <;> (try split at h) <;> (try simp_all) <;> (try split at h) <;> (try simp_all) <;> (try (subst h; simp_all [waitCond, Point.chan, Point.isWaitB]))
   case trySendLock c v => unfold trySendBody at h; split at h <;> (try split at h) <;> (try split at h) <;> (try simp_all) <;> (try split at h) <;> (try simp_all) <;> (try (subst h; simp_all [waitCond, Point.chan, Point.isWaitB]))
   case tryRecvLock c sl a => unfold tryRecvBody at h; split at h <;> (try split at h) <;> (try split at h) <;> (try simp_all) <;> (try split at h) <;> (try simp_all) <;> (try (subst h; simp_all [waitCond, Point.chan, Point.isWaitB]))
@@ -201,7 +235,7 @@ theorem doAfter_self (s : State) (t : Tid) (c : Cid) (k : After) (ht : t < s.thr
       have := onRet_notWaitPt ((if bc = true then { (s.setOwner c none) with threads := broadcast c (s.setOwner c none).threads } else s.setOwner c none).thread t) r
       rw [hpc] at this
       simp [PC.isWaitPt, hq] at this
-    | recv2 b =>
+    | recv2 b sq =>
       simp only [] at hpc
       rw [thread_setThread_self _ _ _ hl] at hpc
       cases hpc
@@ -216,7 +250,7 @@ theorem doAfter_wakes (s : State) (t t' : Tid) (c : Cid) (n : Next) (p : Point) 
     broadcast_wakes c _ t' p hpc hw hc
   cases n with
   | ret r => simp only []; rw [thread_setThread_ne _ _ _ _ (Ne.symm hne)]; exact hb
-  | recv2 b => simp only []; rw [thread_setThread_ne _ _ _ _ (Ne.symm hne)]; exact hb
+  | recv2 b sq => simp only []; rw [thread_setThread_ne _ _ _ _ (Ne.symm hne)]; exact hb
 
 /-! ### what a step does, in the detail the wait invariant needs -/
 
@@ -410,7 +444,6 @@ theorem exec_waitInv {s : State} {t : Tid} (h : WaitInv s) (hm : MutexInv s) (hr
     obtain ⟨e, _⟩ := exec_at s t p0 ht hpc
     obtain ⟨hch, hself, hbc, hnk⟩ := exec_at_detail s t p0 ht hpc
     have hfree := runnable_free hr hpc
-    have hcap := body_cap p0 t (s.chan p0.chan)
     constructor
     · intro t' p hpc' hw' hlen
       rw [e.olen] at hlen
@@ -425,10 +458,10 @@ theorem exec_waitInv {s : State} {t : Tid} (h : WaitInv s) (hm : MutexInv s) (hr
           left
           have hq : ∀ n, (body p0 t (s.chan p0.chan)).out ≠ .notify (.finish true n) := by
             intro n hn; rw [ho] at hn; cases hn
-          have hlen' := body_quiet_len p0 t _ hq
+          have hsame := body_quiet p0 t _ hq
           rcases chan_after_set s _ p0.chan _ hch p.chan with e1 | ⟨_, e1⟩
           · rw [e1, hc]; exact hcond
-          · rw [e1]; exact waitCond_congr p _ _ hlen' hcap hcond
+          · rw [e1]; exact waitCond_congr p _ _ hsame hcond
         · obtain ⟨_, hnb⟩ := body_notify_wait p0 p t _ ho
           rw [hnb] at hB; cases hB
       · have hpc_s : (s.thread t').pc = .at p := by rw [← e.pcs t' htt]; exact hpc'
@@ -446,10 +479,10 @@ theorem exec_waitInv {s : State} {t : Tid} (h : WaitInv s) (hm : MutexInv s) (hr
               rw [this] at hw'; cases hw'
           · left
             have hq' : ∀ n, (body p0 t (s.chan p0.chan)).out ≠ .notify (.finish true n) := fun n hn => hq ⟨n, hn⟩
-            have hlen' := body_quiet_len p0 t _ hq'
+            have hsame := body_quiet p0 t _ hq'
             rcases chan_after_set s _ p0.chan _ hch p.chan with e1 | ⟨_, e1⟩
             · rw [e1]; exact hcond
-            · rw [e1]; rw [hc] at hcond; exact waitCond_congr p _ _ hlen' hcap hcond
+            · rw [e1]; rw [hc] at hcond; exact waitCond_congr p _ _ hsame hcond
         · have e1 : (exec s t).chan p.chan = s.chan p.chan := by
             rcases chan_after_set s _ p0.chan _ hch p.chan with e1 | ⟨e0, _⟩
             · exact e1
@@ -543,8 +576,8 @@ theorem exec_waitInv {s : State} {t : Tid} (h : WaitInv s) (hm : MutexInv s) (hr
           simp [PC.inCS] at this
         · rw [hpcs t1 htt] at hk; exact h.nwait t1 c rest q hk
 
-theorem init_waitInv (caps : List Nat) (progs : List (List Op)) : WaitInv (init caps progs) := by
-  have hpc : ∀ t, ((init caps progs).thread t).pc = .start ∨ ((init caps progs).thread t).pc = .done := by
+theorem init_waitInv (cfg : Cfg) (caps : List Nat) (progs : List (List Op)) : WaitInv (init cfg caps progs) := by
+  have hpc : ∀ t, ((init cfg caps progs).thread t).pc = .start ∨ ((init cfg caps progs).thread t).pc = .done := by
     intro t
     simp only [State.thread, init, List.getD, List.getElem?_map]
     cases progs[t]? <;> simp [dfltThread]
@@ -588,10 +621,64 @@ theorem apply_waitInv {s s' : State} (h : WaitInv s) (hm : MutexInv s) (ch : Cho
     · cases hs; exact wake_waitInv h t
     · cases hs
 
-theorem reachable_waitInv {caps : List Nat} {progs : List (List Op)} {s : State}
-    (h : Reachable (init caps progs) s) : WaitInv s ∧ MutexInv s := by
+theorem reachable_waitInv {cfg : Cfg} {caps : List Nat} {progs : List (List Op)} {s : State}
+    (h : Reachable (init cfg caps progs) s) : WaitInv s ∧ MutexInv s := by
   induction h with
-  | init => exact ⟨init_waitInv caps progs, init_mutexInv caps progs⟩
+  | init => exact ⟨init_waitInv cfg caps progs, init_mutexInv cfg caps progs⟩
   | next ch _ hs ih => exact ⟨apply_waitInv ih.1 ih.2 ch hs, apply_mutexInv ih.2 ch hs⟩
+
+/-! ### the code variant of a channel never changes -/
+
+def FixInv (b : Bool) (s : State) : Prop := ∀ c, c < s.chans.length → (s.chan c).fixed = b
+
+theorem exec_fixInv {b : Bool} {s : State} (h : FixInv b s) (t : Tid) : FixInv b (exec s t) := by
+  rcases exec_chans s t with he | ⟨p, _, he⟩
+  · intro c hc
+    have : (exec s t).chan c = s.chan c := by unfold State.chan; rw [he]
+    rw [this]; exact h c (by rw [he] at hc; exact hc)
+  · intro c hc
+    have hlen : c < s.chans.length := by rw [he] at hc; simpa using hc
+    rcases chan_after_set s _ p.chan _ he c with e1 | ⟨e0, e1⟩
+    · rw [e1]; exact h c hlen
+    · rw [e1, body_fixed, ← e0]; exact h c hlen
+
+theorem reachable_fixInv {cfg : Cfg} {caps : List Nat} {progs : List (List Op)} {s : State}
+    (h : Reachable (init cfg caps progs) s) : FixInv cfg.recvseqFix s := by
+  induction h with
+  | init =>
+    intro c hc
+    simp only [init, List.length_map] at hc
+    simp [State.chan, init, List.getD, hc, newChan]
+  | next ch _ hs ih =>
+    cases ch with
+    | step t =>
+      simp only [apply, step] at hs
+      split at hs
+      · cases hs; exact exec_fixInv ih t
+      · cases hs
+    | wake t =>
+      simp only [apply, wake] at hs
+      split at hs
+      · cases hs; exact ih
+      · cases hs
+
+/-- `p.recvseq` never decreases -/
+theorem recvseq_mono (p : Point) (t : Tid) (ch : Chan) : ch.recvseq ≤ (body p t ch).ch.recvseq := by
+  by_cases h : (body p t ch).ch.recvseq = ch.recvseq
+  · omega
+  · cases p <;> simp only [body] at h ⊢
+    case sendLock c v => unfold sendLoop at h ⊢; split <;> (try split) <;> (try split) <;> simp_all [Chan.push, Chan.handOff, Chan.bump] <;> (split <;> simp_all) <;> (try split) <;> omega
+    case sendWaitU c v => unfold sendLoop at h ⊢; split <;> (try split) <;> (try split) <;> simp_all [Chan.push, Chan.handOff, Chan.bump] <;> (split <;> simp_all) <;> (try split) <;> omega
+    case sendWaitB c v => unfold sendLoop at h ⊢; split <;> (try split) <;> (try split) <;> simp_all [Chan.push, Chan.handOff, Chan.bump] <;> (split <;> simp_all) <;> (try split) <;> omega
+    case recvLock c sl => unfold recvLoop at h ⊢; split <;> (try split) <;> (try split) <;> simp_all [Chan.pop]
+    case recvWaitU c sl => unfold recvLoop at h ⊢; split <;> (try split) <;> (try split) <;> simp_all [Chan.pop]
+    case recvWaitB c sl => unfold recvLoop at h ⊢; split <;> (try split) <;> (try split) <;> simp_all [Chan.pop]
+    case recv2Lock c b sq => unfold recv2Loop at h ⊢; split <;> (split <;> simp_all)
+    case recv2Wait c b sq => unfold recv2Loop at h ⊢; split <;> (split <;> simp_all)
+    case closeLock c => unfold closeBody at h ⊢; split <;> simp_all
+    case trySendLock c v => unfold trySendBody at h ⊢; split <;> (try split) <;> simp_all [Chan.push, Chan.handOff, Chan.bump] <;> (split <;> simp_all) <;> (try split) <;> omega
+    case tryRecvLock c sl a => unfold tryRecvBody at h ⊢; split <;> (try split) <;> (try split) <;> simp_all [Chan.pop]
+    case prepLock c b => unfold prepBody at h ⊢; split <;> simp_all <;> (split at h <;> simp_all)
+    case endLock c b => unfold endBody at h ⊢; simp_all; split at h <;> simp_all
 
 end LlgoVerif.Chan
